@@ -171,16 +171,16 @@ func atomSites(fn *ssa.Function, atoms []Atom) []int {
 }
 
 type GuardSpec struct {
-	Rule      string // kind key
-	Fn        *ssa.Function
-	Starts    []point // nil = function entry
-	Target    InstrPred
+	Rule       string // kind key
+	Fn         *ssa.Function
+	Starts     []point // nil = function entry
+	Target     InstrPred
 	TargetDesc string
-	Atoms     []Atom
-	G         func(a []bool) bool
-	GDesc     string
-	Extra     EdgeFilter
-	Avoid     InstrPred // instructions that end a path (e.g. the start of the next loop iteration)
+	Atoms      []Atom
+	G          func(a []bool) bool
+	GDesc      string
+	Extra      EdgeFilter
+	Avoid      InstrPred // instructions that end a path (e.g. the start of the next loop iteration)
 	MinTargets int
 }
 
